@@ -31,6 +31,7 @@ mk_pair = z3.Function('mk_pair', ValS, ValS, ValS)
 parse_fn = z3.Function('parse_fn', S, ValS)
 parse_raises = z3.Function('parse_raises', S, B)
 is_mapping = z3.Function('is_mapping', ValS, B)
+is_dict = z3.Function('is_dict', ValS, B)
 items_view = z3.Function('items_view', ValS, ValS)
 DICT_OF_MAP = z3.Function('dict_of_mapped_pairs', ValS, S, B, ValS)   # dict(map(model_pair[sep, parse_keys], iterable))
 
@@ -81,6 +82,13 @@ def install_value_model(E, ctx):
             return VBool(is_str(o.t))
         if isinstance(o, VStr) and getattr(c, 'name', None) == 'str':
             return VBool(True)
+        if isinstance(o, VVal) and o.t.sort() == ValS and getattr(c, 'name', None) == 'dict':
+            # a dict is a mapping; a mapping need not be a dict (MappingProxyType, ChainMap, UserDict, ...)
+            E.assume(z3.Implies(is_dict(o.t), is_mapping(o.t)))
+            return VBool(is_dict(o.t))
+        if isinstance(o, VVal) and o.t.sort() == ValS and getattr(c, 'name', None) in (
+                'typing.Mapping', 'collections.abc.Mapping', 'Mapping'):
+            return VBool(is_mapping(o.t))
         return None
     B_['__isinstance__'] = _isinstance
 
@@ -382,6 +390,11 @@ def t_split(E):
     st = {}
 
     def consume(E, it, who):
+        if it is st.get('cond_callable') and it is not None:
+            E.oblige('%s/dispatch.a_callable_condition_is_applied_to_the_elements_not_iterated' % f.qualname,
+                     z3.BoolVal(False), detail='%s(condition) although callable(condition): e.g. str, list, a class '
+                                               'with __iter__ used as predicate' % who)
+            raise PathEnd()
         if not (isinstance(it, Obj) and it.cls == 'Iter'):
             raise Unsupported('%s over %r' % (who, it))
         E.oblige('%s/ownership.%s_consumes_an_unconsumed_iterator' % (f.qualname, who),
@@ -503,6 +516,18 @@ def t_split(E):
             Ceff = C
         E.builtins['__callable__'] = lambda E, o: VBool(o is st.get('cond_callable')) \
             if isinstance(o, Obj) and o.cls in ('callable', 'Iter') else None
+
+        def _hasattr(E_, a, k):
+            o, n = a[0], a[1].concrete() if isinstance(a[1], VStr) else None
+            if n in ('__iter__', '__next__') and isinstance(o, Obj) and o.cls == 'Iter':
+                return VBool(True)
+            if n in ('__iter__', '__call__') and o is st.get('cond_callable') and o is not None:
+                # a callable may well look iterable too (str, list, dict, a class with __iter__ used as predicate)
+                return VBool(True) if n == '__call__' else VBool(E.fresh('callable_also_has_iter', B))
+            if n == '__call__' and isinstance(o, Obj) and o.cls == 'Iter':
+                return VBool(False)
+            raise Unsupported('hasattr(%r, %r)' % (o, n))
+        E.builtins['hasattr'] = VStub('hasattr', _hasattr)
         E.cover(f.qualname + '/requires')
         E.canary(f.qualname + '/canary@entry')
         res = E.run_function(f, [src, cond], {})
@@ -577,14 +602,29 @@ def t_exhaust(E):
             st['maxlen'] = ml.concrete() if isinstance(ml, VInt) else None
         return Obj('deque')
 
+    def _short_circuit(name):
+        def fn_(E_, a, k):
+            """any()/all(): stops pulling at the first truthy/falsy element"""
+            it_ = a[0]
+            if isinstance(it_, Obj) and it_.cls == 'Iter':
+                it_.fields['pulled_all'] = E.fresh('no_%s_element_before_the_end' % ('truthy' if name == 'any' else 'falsy'), B)
+                st['maxlen'] = 0
+                return VBool(E.fresh(name, B))
+            raise Unsupported('%s(%r)' % (name, it_))
+        return VStub(name, fn_)
+
     def body():
         st.clear()
         E.builtins[('import', 'collections:deque')] = VStub('collections.deque', _deque)
+        E.builtins['any'] = _short_circuit('any')
+        E.builtins['all'] = _short_circuit('all')
         it = mk_iter(E.fresh('X', VS))
         E.cover(f.qualname + '/requires')
         E.canary(f.qualname + '/canary@entry')
         r = E.run_function(f, [it], {})
-        E.oblige(f.qualname + '/ensures.whole_argument_consumed', z3.BoolVal(it.fields.get('pulled_all') is True))
+        pa = it.fields.get('pulled_all')
+        E.oblige(f.qualname + '/ensures.whole_argument_consumed',
+                 pa if isinstance(pa, z3.BoolRef) else z3.BoolVal(pa is True))
         E.oblige(f.qualname + '/ensures.returns_None', z3.BoolVal(isinstance(r, VNone)))
         E.oblige(f.qualname + '/ensures.keeps_nothing', z3.BoolVal(st.get('maxlen') == 0))
     E.run_paths(body)
